@@ -47,7 +47,7 @@ def _rand_opts(rng, dag, cname):
     if cname == "MinFlowDecompCycles":
         if rng.random() < 0.2:
             oo["use_min_gen_set_lowerbound"] = True
-        if rng.random() < 0.2:
+        if rng.random() < 0.4:
             oo["optimize_with_guessed_weights"] = True
             if rng.random() < 0.5:
                 oo["add_min_gen_set_to_given_weights"] = True
@@ -377,6 +377,33 @@ def routes_of(world, sol):
     base = _base(world)
     key = "walks" if base in models.CYCLIC_CLASSES else "paths"
     return key, sol.get(key)
+
+
+def greedy_variant(world, rng):
+    """The greedy route of the DAG flow decompositions, reached on purpose: default options (greedy on), nothing ignored,
+    more paths allowed than the instance needs (the answer is then padded), and decimal float weights (0.1-steps: flow
+    values whose sums and differences are not exact in binary).  Returns None where it does not apply."""
+    g = world["graph"]
+    if world["class"] not in ("kFlowDecomp", "MinFlowDecomp") or _node_mode(world) or not g.get("routes") or not g.get("weights"):
+        return None
+    w2 = copy.deepcopy(world)
+    a = w2["args"]
+    a["optimization_options"] = {}
+    a.pop("elements_to_ignore", None)
+    a.pop("solution_weights_superset", None)
+    if "k" in a:
+        a["k"] = len(g["routes"]) + rng.choice([1, 1, 2])
+    if rng.random() < 0.7:
+        ws = [round(0.1 * rng.randint(1, 30), 1) for _ in g["weights"]]
+        flow = {}
+        for r, w_ in zip(g["routes"], ws):
+            for e in zip(r[:-1], r[1:]):
+                flow[e] = flow.get(e, 0) + w_
+        g2 = w2["graph"]
+        g2["edges"] = [[u, v, flow.get((u, v), 0)] for u, v, _ in g2["edges"]]
+        g2["weights"] = ws
+        a["weight_type"] = "float"
+    return w2
 
 
 def oracle_c01(world, out, pid="C01"):
